@@ -88,6 +88,11 @@ pub fn type_pool() -> Vec<Type> {
         named_tuple_type(vec![("a".into(), scalar_type(INT64)), ("b".into(), array_type(vec![70], UINT8))]),
         tuple_type(vec![]),
         vector_type(20, array_type(vec![30], UINT8)),
+        vector_type(3, array_type(vec![5], BIT)),
+        vector_type(4, scalar_type(BIT)),
+        tuple_type(vec![array_type(vec![3], BIT), array_type(vec![11], BIT), scalar_type(BIT)]),
+        named_tuple_type(vec![("m".into(), array_type(vec![13], BIT)), ("n".into(), vector_type(2, array_type(vec![9], BIT)))]),
+        vector_type(70, array_type(vec![3], BIT)),
     ]
 }
 
@@ -142,6 +147,8 @@ pub fn is_permutation(v: &Value, n: u64) -> bool {
 }
 
 struct World {
+    /// keeps the context alive: nodes hold only weak references to their graph
+    _ctx: ciphercore_base::graphs::Context,
     key_nodes: Vec<Node>,
     prf_nodes: Vec<Node>,
     noise_nodes: Vec<Node>,
@@ -171,7 +178,7 @@ fn build_world(h: &PrfHistory) -> Result<World, String> {
     for t in &types {
         noise_nodes.push(g.random(t.clone()).map_err(es)?);
     }
-    Ok(World { key_nodes, prf_nodes, noise_nodes, types })
+    Ok(World { _ctx: ctx, key_nodes, prf_nodes, noise_nodes, types })
 }
 
 pub fn gen_history(rng: &mut Rng) -> PrfHistory {
@@ -333,21 +340,50 @@ pub fn run_history(h: &PrfHistory, st: &mut PrfStats) -> Option<(String, String)
                 if items[i].1 .0 == items[j].1 .0 {
                     return Some(("prf-collision".into(), format!("different (key, counter) give the same {}-bit value", bits)));
                 }
-                let (x, y) = (flat_bytes(&items[i].1 .0), flat_bytes(&items[j].1 .0));
-                let n = x.len().min(y.len()).min(64);
-                let mut agree = 0u64;
-                for k in 0..n {
-                    agree += (!(x[k] ^ y[k])).count_ones() as u64;
-                }
+                // bitwise agreement over the meaningful bits only (padding bits of packed bit arrays are always zero)
+                let (agree, n) = agreement(t, &items[i].1 .0, &items[j].1 .0, 512);
                 st.distinct_pairs += 1;
                 st.agree_bits += agree;
-                st.total_bits += 8 * n as u64;
+                st.total_bits += n;
             }
         }
     }
     None
 }
 
+/// (agreeing bits, compared bits) over decoded elements, at most `limit` bits.
+fn agreement(t: &Type, a: &Value, b: &Value, limit: u64) -> (u64, u64) {
+    if is_leaf_type(t) {
+        let w = crate::vals::st_bits(t.get_scalar_type()) as u64;
+        let (x, y) = (crate::vals::dec(a, t), crate::vals::dec(b, t));
+        let mut agree = 0;
+        let mut n = 0;
+        for (p, q) in x.iter().zip(y.iter()) {
+            if n + w > limit {
+                break;
+            }
+            let d = (p ^ q) & crate::vals::st_mask(t.get_scalar_type());
+            agree += w - d.count_ones() as u64;
+            n += w;
+        }
+        (agree, n)
+    } else {
+        let (xs, ys) = (as_vec(a).unwrap_or_default(), as_vec(b).unwrap_or_default());
+        let mut agree = 0;
+        let mut n = 0;
+        for ((ct, x), y) in children_types(t).iter().zip(xs.iter()).zip(ys.iter()) {
+            if n >= limit {
+                break;
+            }
+            let (a2, n2) = agreement(ct, x, y, limit - n);
+            agree += a2;
+            n += n2;
+        }
+        (agree, n)
+    }
+}
+
+#[allow(dead_code)]
 fn flat_bytes(v: &Value) -> Vec<u8> {
     match as_bytes(v) {
         Some(b) => b,
@@ -443,6 +479,125 @@ pub fn prng_checks(seed: u64, draws: usize, counters: &mut BTreeMap<String, u64>
             if bad {
                 return Some(("modulo-bias".into(), format!("get_random_in_range({}): chi2 = {:.1} over {} cells, {} draws: {:?}", m, chi2, cells, draws, counts)));
             }
+        }
+    }
+    // Fisher-Yates swap indices of PermutationFromPRF are uniform: recover j_i from the permutation
+    // (value i sits at position j_i when steps > i are undone) and test j_i / (i + 1) for uniformity
+    {
+        let ctxp = create_context().ok()?;
+        let gp = ctxp.create_graph().ok()?;
+        let kin = gp.input(array_type(vec![128], BIT)).ok()?;
+        let n: u64 = 1500;
+        let pnode = kin.permutation_from_prf(7, n).ok()?;
+        let mut evp = SimpleEvaluator::new(Some(seed_from_u64(rng.next_u64()))).ok()?;
+        let perms = (draws / 400).clamp(200, 4000);
+        let cells = 16usize;
+        let mut counts = vec![0u64; cells];
+        let mut total = 0u64;
+        for _ in 0..perms {
+            let key = Value::from_bytes(rng.bytes(16));
+            let v = match guarded(|| evp.evaluate_node(pnode.clone(), vec![key])) {
+                Ok(Ok(v)) => v,
+                Ok(Err(e)) => return Some(("prf-error".into(), es(e))),
+                Err(pn) => return Some(("panic".into(), pn)),
+            };
+            if !is_permutation(&v, n) {
+                return Some(("not-a-permutation".into(), format!("PermutationFromPRF(7, {}) is not a permutation", n)));
+            }
+            let mut a: Vec<usize> = crate::vals::dec(&v, &array_type(vec![n], UINT64)).iter().map(|x| *x as usize).collect();
+            let mut pos = vec![0usize; n as usize];
+            for (i, x) in a.iter().enumerate() {
+                pos[*x] = i;
+            }
+            for i in (1..n as usize).rev() {
+                let j = pos[i];
+                // undo swap(i, j)
+                let (vi, vj) = (a[i], a[j]);
+                a.swap(i, j);
+                pos[vi] = j;
+                pos[vj] = i;
+                if i >= 300 {
+                    counts[(j * cells) / (i + 1)] += 1;
+                    total += 1;
+                }
+            }
+        }
+        *counters.entry("prng:fisher-yates-indices-recovered".into()).or_insert(0) += total;
+        let (bad, chi2) = chi2_exceeds(&counts, total as f64 / cells as f64);
+        if bad {
+            return Some(("permutation-bias".into(), format!("PermutationFromPRF(_, {}): recovered Fisher-Yates indices j_i/(i+1) are not uniform over {} permutations: chi2 = {:.1}, cells {:?}", n, perms, chi2, counts)));
+        }
+    }
+    // large permutations: draws for i >= 65536 need 4 random bytes (and cross the PRF's internal batch
+    // boundaries); the number of indices j_i < 65536 among them has a known mean and variance
+    {
+        let ctxp = create_context().ok()?;
+        let gp = ctxp.create_graph().ok()?;
+        let kin = gp.input(array_type(vec![128], BIT)).ok()?;
+        let n: usize = 131072;
+        let pnode = kin.permutation_from_prf(3, n as u64).ok()?;
+        let mut evp = SimpleEvaluator::new(Some(seed_from_u64(rng.next_u64()))).ok()?;
+        let perms = (draws / 3000).clamp(64, 1024);
+        let mut observed = 0f64;
+        let mut mean = 0f64;
+        let mut var = 0f64;
+        for _ in 0..perms {
+            let key = Value::from_bytes(rng.bytes(16));
+            let v = match guarded(|| evp.evaluate_node(pnode.clone(), vec![key])) {
+                Ok(Ok(v)) => v,
+                Ok(Err(e)) => return Some(("prf-error".into(), es(e))),
+                Err(pn) => return Some(("panic".into(), pn)),
+            };
+            let bytes = crate::vals::as_bytes(&v).unwrap_or_default();
+            if bytes.len() != n * 8 {
+                return Some(("invalid-encoding".into(), "permutation value has a wrong length".into()));
+            }
+            let mut a: Vec<u32> = (0..n).map(|i| u64::from_le_bytes(bytes[i * 8..i * 8 + 8].try_into().unwrap()) as u32).collect();
+            let mut pos = vec![0u32; n];
+            let mut seen = vec![false; n];
+            for (i, x) in a.iter().enumerate() {
+                if (*x as usize) >= n || seen[*x as usize] {
+                    return Some(("not-a-permutation".into(), format!("PermutationFromPRF(3, {}) is not a permutation", n)));
+                }
+                seen[*x as usize] = true;
+                pos[*x as usize] = i as u32;
+            }
+            // the 4-byte draws come in batches of 128 per 512-byte PRF batch: also look at each residue class
+            // of the draw index separately (512 draws per class and permutation)
+            let mut class_obs = [0f64; 128];
+            let mut class_mean = [0f64; 128];
+            for i in (65536..n).rev() {
+                let j = pos[i] as usize;
+                let (vi, vj) = (a[i], a[j]);
+                a.swap(i, j);
+                pos[vi as usize] = j as u32;
+                pos[vj as usize] = i as u32;
+                let p = 65536.0 / (i as f64 + 1.0);
+                if j < 65536 {
+                    observed += 1.0;
+                    class_obs[i % 128] += 1.0;
+                }
+                class_mean[i % 128] += p;
+                mean += p;
+                var += p * (1.0 - p);
+            }
+            for r in 0..128 {
+                // Hoeffding: P(|obs - mean| > t) <= 2 exp(-2 t^2 / 512); t = 105 gives < e^-42 per class
+                if (class_obs[r] - class_mean[r]).abs() > 105.0 {
+                    return Some((
+                        "permutation-bias".into(),
+                        format!(
+                            "PermutationFromPRF(_, {}): among the 512 swap indices j_i with i >= 65536 and i mod 128 = {}, {} are below 65536 (expected {:.0}, Hoeffding bound 105): draws at a fixed position of the PRF batches are biased",
+                            n, r, class_obs[r], class_mean[r]
+                        ),
+                    ));
+                }
+            }
+        }
+        *counters.entry("prng:large-permutations".into()).or_insert(0) += perms as u64;
+        let z = (observed - mean) / var.sqrt();
+        if z.abs() > 13.0 {
+            return Some(("permutation-bias".into(), format!("PermutationFromPRF(_, {}): {} of the swap indices j_i (i >= 65536) are below 65536, expected {:.0} +- {:.0} (z = {:.1}) over {} permutations", n, observed, mean, var.sqrt(), z, perms)));
         }
     }
     // Random / RandomPermutation nodes through an evaluator
